@@ -8,7 +8,10 @@ import (
 	"github.com/anthdm/hollywood/actor"
 	hremote "github.com/anthdm/hollywood/remote"
 
+	"storj.io/drpc"
+
 	"verif/harness/core"
+	"verif/sim/simdrpc/drpcserver"
 	"verif/sim/simdrpc/wire"
 	simnet "verif/sim/simnet"
 	"verif/sim/simrt"
@@ -57,6 +60,22 @@ func runC17FaultFree(rc *core.RunCtx) {
 		to := nodes[(fi+1+g.IntN(len(nodes)-1))%len(nodes)]
 		r := &reqR{key: fmt.Sprintf("req%d", i)}
 		reqs = append(reqs, r)
+		if g.Bool(0.4) {
+			// two requests in flight from one task, collected in reverse order
+			r2 := &reqR{key: fmt.Sprintf("req%db", i)}
+			reqs = append(reqs, r2)
+			rc.Scen("node%d: pipelined requests %s, %s to node%d, results collected in reverse order", from, r.key, r2.key, to)
+			simrt.GoNode(from, "requester", func() {
+				resp1 := w.nodes[from].E.Request(actor.NewPID(w.dest(to), "rec/r0"), &actor.Ping{From: &actor.PID{Address: "payload", ID: r.key}}, 10*time.Second)
+				resp2 := w.nodes[from].E.Request(actor.NewPID(w.dest(to), "rec/r0"), &actor.Ping{From: &actor.PID{Address: "payload", ID: r2.key}}, 10*time.Second)
+				r2.val, r2.err = resp2.Result()
+				r2.ok = true
+				r.val, r.err = resp1.Result()
+				r.ok = true
+				simrt.Ev("requests %s -> %v %v; %s -> %v %v", r.key, r.val, r.err, r2.key, r2.val, r2.err)
+			})
+			continue
+		}
 		simrt.GoNode(from, "requester", func() {
 			resp := w.nodes[from].E.Request(actor.NewPID(w.dest(to), "rec/r0"), &actor.Ping{From: &actor.PID{Address: "payload", ID: r.key}}, 10*time.Second)
 			r.val, r.err = resp.Result()
@@ -183,7 +202,11 @@ func runC17Break(rc *core.RunCtx) {
 	if g.Bool(0.25) {
 		simnet.Net().DialRefuseP = 0.3
 	}
-	rc.Scen("buggify: setDeadlineErrP=%v dialRefuseP=%v", simnet.Net().SetDeadlineErrP, simnet.Net().DialRefuseP)
+	if g.Bool(0.25) {
+		// node 2 is addressed by a name, the connection knows it by its resolved address
+		w.useAlias(2)
+	}
+	rc.Scen("buggify: setDeadlineErrP=%v dialRefuseP=%v; node 2 addressed as %s", simnet.Net().SetDeadlineErrP, simnet.Net().DialRefuseP, w.dest(2))
 	scripts := genOpsFrom(g, rc, 1, []int{2}, targets, g.Range(1, 2), maxOps, false)
 	fin := runScripts(w, scripts)
 	mode := g.IntN(4)
@@ -209,7 +232,7 @@ func runC17Break(rc *core.RunCtx) {
 			}
 		case 3:
 			simrt.Fault("peer-ends-stream")
-			w.nodes[1].E.Send(actor.NewPID(addrOf(2), "rec/r0"), unknownTypeMsg())
+			w.nodes[1].E.Send(actor.NewPID(w.dest(2), "rec/r0"), unknownTypeMsg())
 		}
 	})
 	rc.Scen("fault mode=%s", [...]string{"break", "partition+heal", "crash+restart", "peer-ends-stream"}[mode])
@@ -351,6 +374,27 @@ func runHostile(rc *core.RunCtx) {
 	legit := genOpsFrom(g, rc, 1, []int{2}, targets, 1, 6, false)
 	fin := runScripts(w, legit)
 
+	// table entries marked by the hostile generator arrive as nil pointers: an
+	// Envelope *value* the wire decoder never produces, which the reader must
+	// survive all the same
+	drpcserver.SetDecodeHook(func(m drpc.Message) {
+		env, ok := m.(*hremote.Envelope)
+		if !ok {
+			return
+		}
+		for i, p := range env.Targets {
+			if p != nil && p.Address == nilMarker {
+				env.Targets[i] = nil
+				simrt.Fault("nil-table-entry")
+			}
+		}
+		for i, p := range env.Senders {
+			if p != nil && p.Address == nilMarker {
+				env.Senders[i] = nil
+				simrt.Fault("nil-table-entry")
+			}
+		}
+	})
 	// in some runs node 2 is also busy dialing an address where nobody listens
 	// (retries and back-off for seconds): a stream writer that exists, is
 	// registered and can be named by the hostile peer, but has no stream yet
@@ -415,10 +459,19 @@ func runHostile(rc *core.RunCtx) {
 						// address one of the node's own infrastructure actors
 						tid = infra[simrt.G().IntN(len(infra))]
 					}
+					if mode == 0 && simrt.G().Bool(0.08) {
+						// becomes a nil table entry on the receiving side (decode hook)
+						env.Targets = append(env.Targets, actor.NewPID(nilMarker, ""))
+						continue
+					}
 					env.Targets = append(env.Targets, actor.NewPID(addrOf(2), tid))
 				}
 				nsn := simrt.G().Range(0, 3) // 3: decoded tables whose capacity exceeds their length
 				for i := 0; i < nsn; i++ {
+					if mode == 0 && simrt.G().Bool(0.08) {
+						env.Senders = append(env.Senders, actor.NewPID(nilMarker, ""))
+						continue
+					}
 					env.Senders = append(env.Senders, actor.NewPID("evil", fmt.Sprintf("s%d", i)))
 				}
 				nm := simrt.G().Range(1, 3)
@@ -455,6 +508,9 @@ func runHostile(rc *core.RunCtx) {
 						(len(env.Senders) == 0 || (hm.sndIdx >= 0 && int(hm.sndIdx) < len(env.Senders)))
 					if hm.tgtIdx >= 0 && int(hm.tgtIdx) < len(env.Targets) {
 						hm.target = env.Targets[hm.tgtIdx].ID
+						if env.Targets[hm.tgtIdx].Address == nilMarker {
+							hm.valid = false // a nil target: nobody is addressed
+						}
 					}
 					env.Messages = append(env.Messages, &hremote.Message{Data: data, TypeNameIndex: hm.typeIdx, TargetIndex: hm.tgtIdx, SenderIndex: hm.sndIdx})
 					sent = append(sent, hm)
@@ -544,6 +600,10 @@ func runHostile(rc *core.RunCtx) {
 	rc.Scen("mode=%s envelopes=%d hostile messages=%d", [...]string{"structural", "byte-mutation", "corrupting-network"}[mode], nenv, len(sent))
 	rc.Nontrivial = len(sent) > 0 || mode == 2
 }
+
+// nilMarker in the Address of a table entry makes the decode hook replace the
+// entry by nil on the receiving side.
+const nilMarker = "\x00nil"
 
 // floodReplies starts a hostile server at node 9's address and a requester on
 // node 2 that asks it something. The server reads the response PID out of the
